@@ -22,6 +22,8 @@ func init() {
 
 func runC07(p *eng.Prog, r *eng.Report, tier string) {
 	c := &cx{p, r, tier}
+	r18RoutersOnlyForStanzas(c, "C07.25")
+	r18EncoderNamespaceIsTheOutputs(c, "C07.24")
 	c.r.Floor("C07.23", "error edges of stanza parses in the multiplexer", r17FailedParseResultUnused(c, "C07.23"), 1)
 	// C07.19 (= C09.17 / C10.10): no cycle in the lock-order graph: a deadlock between a
 	// writer and Close, or between the serve loop and a requester, ends every guarantee of this property
